@@ -39,7 +39,7 @@ TREE_CAP = 12
 
 def units(tier):
     rng = random.Random(seed())
-    specs, _ = small_specs(tier, rng, allow_cyclic=False, nrand_quick=100, nrand_thorough=1000)
+    specs, _ = small_specs(tier, rng, allow_cyclic=False, nrand_quick=80, nrand_thorough=800, chains_quick=30, chains_thorough=300, fixed_quick=100, fixed_thorough=1000)
     out = []
     for i, s in enumerate(specs):
         out.append(s)
